@@ -5,6 +5,7 @@ import hashlib
 import itertools
 import json
 import traceback
+from pathlib import Path
 
 from . import graphs as Gr
 from . import refmodel as R
@@ -1013,3 +1014,53 @@ def eval_c12_real(item):
     except Exception as e:  # noqa
         out["problems"].append({"kind": "raises", "error": f"{type(e).__name__}: {e}", "tb": traceback.format_exc()[-1500:]})
     return out
+
+
+# ---------------------------------------------------------------------------------------------- C03: marked own parameter
+
+def eval_marked(item):
+    """C03 add-on family: a task whose task_outputs marks one of its *own* parameter configurations (`dep(self.leafp)`) - the
+    marked object was sealed and identified (the task identifier is computed during submit) before it becomes the
+    output of the task.  Every (embedder, leaf value, producing task or none, history) combination is built with the real
+    API; returns [(signature, full id, raw id)] for the grouping oracle of C03."""
+    import itertools
+    import universe.g as U
+    Gr.ensure_init()
+    rows = []
+    embedders = {
+        "self": lambda v: v,
+        "box.child": lambda v: U.Box(child=v),
+        "box.ochild": lambda v: U.Box(child=U.Leaf(i=0), ochild=v),
+        "box.lst": lambda v: U.Box(child=U.Leaf(i=0), lst=[v]),
+        "box.dct": lambda v: U.Box(child=U.Leaf(i=0), dct={"a": v}),
+        "box.lll": lambda v: U.Box(child=U.Leaf(i=0), lll=[[v]]),
+        "holder.leaf": lambda v: U.Holder(leaf=v),
+        "job.cfg": lambda v: U.Job(cfg=U.Box(child=v)),
+        "pre.leaf": lambda v: U.PreT(leaf=v),
+    }
+    producers = [None] + [(cls, x) for cls in ("JobMark", "JobMarkx") for x in (0, 1)]
+    # history: is the identifier of the leaf requested before the submission / after it (before embedding) / never
+    for (ename, emb), i, prod, peek in itertools.product(embedders.items(), (0, 1), producers, ("never", "before", "after", "both")):
+        try:
+            leaf = U.Leaf(i=i)
+            if peek in ("before", "both"):
+                Gr._peek(leaf)
+            if prod is not None:
+                task = getattr(U, prod[0])(x=prod[1], leafp=leaf)
+                with Gr.quiet():
+                    v = task.submit()
+                if v is not leaf:
+                    rows.append({"error": f"submit returned another object than the marked parameter ({prod})"})
+                    continue
+            else:
+                v = leaf
+                if peek in ("after", "both"):
+                    from experimaestro.xpmutils import DirectoryContext
+                    v.__xpm__.seal(DirectoryContext(Path(Gr._STATE["dir"]) / "sealed"))
+            if peek in ("after", "both"):
+                Gr._peek(v)
+            obj = emb(v)
+            rows.append({"sig": repr((ename, i, prod)), "hist": peek, "id": Gr.ident(obj), "raw": Gr.raw_ident(obj)})
+        except Exception as e:  # noqa
+            rows.append({"error": f"{type(e).__name__}: {e}", "case": repr((ename, i, prod, peek)), "tb": traceback.format_exc()[-800:]})
+    return rows
